@@ -146,13 +146,15 @@ def main():
       '   per property (every later round was told what the earlier ones had produced and asked for something\n'
       '   different: another mechanism, code site or trigger): rounds 1 and 2 for all 20 properties, round 3 for the 14\n'
       '   behavioural properties of the priority / join / limit disciplines, round 4 for the rest (C04 C10 C13 C14 C18\n'
-      '   C20), round 5 for the 12 properties with the most misses so far, round 6 for the other 8: %d changes. **Caught\n'
-      '   by the owning check at the first try: round 1: 32 of 40; round 2: 28 of 40; round 3: 19 of 28; round 4: 10 of\n'
-      '   12; round 5: 17 of 24; round 6: 13 of 16.** Each miss showed a real weakness - a workload that was too\n'
+      '   C20), round 5 for the 12 properties with the most misses so far, round 6 for the other 8, round 7 for 17 properties\n'
+      '   (all but C04, C13, C18): %d changes. **Caught by the owning check at the first try: round 1: 32 of 40; round\n'
+      '   2: 28 of 40; round 3: 19 of 28; round 4: 10 of 12; round 5: 17 of 24; round 6: 13 of 16; round 7: 24 of 35\n'
+      '   (four of the eleven misses were closed on reading the agents\' reports, before the changes were run).** Each miss showed a real weakness - a workload that was too\n'
       '   narrow (unusual configurations above all), an oracle that was sound but too weak, an observation taken too\n'
       '   late, or instrumentation that synchronised what it was supposed to watch - and was closed by strengthening\n'
-      '   the monitor, never by special-casing the change. After that all are caught by the owning check (the table is\n'
-      '   regenerated from the last full re-run):\n' % len(glob.glob(os.path.join(V, 'seeded', '*', ''))))
+      '   the monitor, never by special-casing the change. After that all are caught by the owning check, except\n'
+      '   C05-10, whose excess exists only while the configured set is being changed (caught by C01 / C06; see its\n'
+      '   `meta.json`):\n' % len(glob.glob(os.path.join(V, 'seeded', '*', ''))))
     w('   | change | what it does / what it needs | caught by | first try |')
     w('   |---|---|---|---|')
     for d in sorted(glob.glob(os.path.join(V, 'seeded', '*', ''))):
@@ -196,7 +198,13 @@ def main():
       '   a Handle that needs 3us to return (this also closed the old exception C19-3). Round 6: C11-7 -> input slices\n'
       '   that are windows of one shared array, a search-based C11 oracle, and a check that no input slice is ever\n'
       '   written to; C11-8 -> a crash inside unite.Release() stays with the running join property instead of being\n'
-      '   attributed to C07; C14-7 -> priority 0 in the divider lists. `meta.json` of each change records what was run\n'
+      '   attributed to C07; C14-7 -> priority 0 in the divider lists. Round 7: C03-9 -> the consumer goes on after a\n'
+      '   slice that came out before the release of the previous one; C05-9 -> RemoveInput under saturation; C11-9 /\n'
+      '   C11-10 -> consumers that write over the whole capacity of what they own, in the C11 check too; C17-9 -> a\n'
+      '   priority without share until another one is removed; C17-10 -> control calls after GracefulStop() was\n'
+      '   requested; C19-9 -> blocked goroutines at the instant any Stop() call returns; C19-10 -> census at an early\n'
+      '   closure; C20-9 -> plain per-item result slots read by the caller right after a normal termination; C20-10 ->\n'
+      '   the pure helpers called concurrently with shared arguments. `meta.json` of each change records what was run\n'
       '   and seen.\n')
     if seeded:
         def listed(n, c):
